@@ -135,7 +135,14 @@ func runC20(c *mon.Ctx) {
 		ar := r.Fork("alter")
 		desc := map[string]any{"secret_hex": fmt.Sprintf("%x", secret), "server": server, "user": user, "duration": dur}
 		c.Case("token", desc, func() {
-			op := tokens.TokenOptions{ServerPrivateKey: secret, ServerName: server, UserID: user, Duration: dur}
+			// (the secret as a caller holding a larger buffer hands it over: a sub-slice with somebody else's bytes behind it)
+			gsecret, secretIntact := mon.Guarded(secret)
+			op := tokens.TokenOptions{ServerPrivateKey: gsecret, ServerName: server, UserID: user, Duration: dur}
+			defer func() {
+				if d := secretIntact(); d != "" {
+					c.Failf("token:callers-key-buffer-written", "issuing / validating tokens: %s", d)
+				}
+			}()
 			before := time.Now().Unix()
 			tok, err := tokens.GenerateLoginToken(op)
 			after := time.Now().Unix()
@@ -374,6 +381,35 @@ func runC20(c *mon.Ctx) {
 			if c.WantSample() {
 				c.Sample(map[string]any{"issue": desc, "token": tok, "caveats": caveatStrings(m)})
 			}
+		})
+	}
+	// several goroutines issuing and validating for different users and keys at once: every caller gets the answer it
+	// would get alone
+	if c.Shard == 0 {
+		type q struct {
+			op    tokens.TokenOptions
+			other tokens.TokenOptions
+		}
+		var qs []q
+		cr := c.Rand("concurrent")
+		for i := 0; i < 40; i++ {
+			key := cr.Bytes(32)
+			u := fmt.Sprintf("@user%02d:example.org", i)
+			op := tokens.TokenOptions{ServerPrivateKey: key, ServerName: "example.org", UserID: u, Duration: 3600}
+			o2 := op
+			o2.UserID = fmt.Sprintf("@user%02d:example.org", (i+1)%40)
+			qs = append(qs, q{op, o2})
+		}
+		c.Case("concurrent-calls", map[string]any{"questions": len(qs)}, func() {
+			c.Nontrivial("concurrent-calls")
+			c.ConcurrentReplay("token", len(qs), func(i int) string {
+				tok, err := tokens.GenerateLoginToken(qs[i].op)
+				if err != nil {
+					return "issue error"
+				}
+				u, uerr := tokens.GetUserFromToken(tok)
+				return fmt.Sprintf("validates=%v for-other-user=%v reveals-own-user=%v", tokens.ValidateToken(qs[i].op, tok) == nil, tokens.ValidateToken(qs[i].other, tok) == nil, uerr == nil && u == qs[i].op.UserID)
+			})
 		})
 	}
 	c.Floor("issued", 20)
